@@ -329,6 +329,12 @@ func runFED14(r *core.Run) {
 				if kind == 1 {
 					keyk += "-mutation"
 				}
+				if sharedKeyFinding(op.Query, data, want) {
+					// not an authorization matter: the planner defect of DESIGN.md 12.3 loses data (or a
+					// @requires input) below a response key shared by fragments on different types; the
+					// sentinel scan above is unaffected
+					keyk += "-below-response-key-shared-by-type-conditions"
+				}
 				r.Fail(prop, "position", keyk, "response data is not the reference data with exactly the denied positions null-propagated\n%sgateway:  %s\nexpected: %s\n%s", ctxMsg, data, want, e.describe())
 			}
 			if len(ref.Errors) > 0 && !hasErr {
